@@ -955,7 +955,7 @@ compPhaseLoadFoam(EmitInfo finfo)
 	foam = 0;
 	if (ftype == FTYPENO_INTERMED) {
 		Lib lib = libRead(fn);
-		emitSetFileIdName(libGetFileId(lib));
+		emitInfoSetIdName(finfo, libGetFileId(lib));
 		if (emitIsOutputNeeded(finfo, FTYPENO_SYMEEXPR)) {
 			symes = libGetSymes(lib);
 			stabPutMeanings(stabFile(), symes);
